@@ -7,7 +7,7 @@ from __future__ import annotations
 
 import ast
 
-from ..astutil import body_walk, call_name, call_recv, calls_in, names_in, norm, strip_await, walk_no_nested
+from ..astutil import polarity_atoms, body_walk, call_name, call_recv, calls_in, names_in, norm, strip_await, walk_no_nested
 from .. import flow
 from .common import env_of, parmap, typer, where
 
@@ -69,8 +69,11 @@ def sanitises(fi, var: str) -> str | None:
         while True:
             up = par.get(c)
             if isinstance(up, ast.If) and not (names_in(up.test) - params) and c in up.body:
-                c = up
-                continue
+                # ... but it must be the mode in which file-system names are produced: the body runs when the mode parameter
+                # (`reference`) is false
+                if all(pos_ is False for a_, pos_ in polarity_atoms(up.test) if isinstance(a_, ast.Name)):
+                    c = up
+                    continue
             return c
 
     def same_list_before(a, b) -> bool:
@@ -105,7 +108,38 @@ def sanitises(fi, var: str) -> str | None:
                 continue
             consts = [c.value for c in ast.walk(t) if isinstance(c, ast.Constant) and isinstance(c.value, str)]
             txt = norm(t, 400)
-            if any(".." in c for c in consts) or "os.pardir" in txt or "pardir" in txt:
+            # arm-exact: the raising arm must be the one where the name *does* contain the '..' (a negated guard refuses
+            # every ordinary name and lets the climbing ones through)
+            def _dd_positive(test):
+                """The test is true whenever the name is '..' and whenever it starts with '../' (or, component-wise form,
+                whenever a component is '..'): Kleene evaluation with exactly one of the '..'-atoms true at a time."""
+                atoms = []
+                for a_, _ in polarity_atoms(test):
+                    cs = [c.value for c in ast.walk(a_) if isinstance(c, ast.Constant) and isinstance(c.value, str)]
+                    if any(".." in c for c in cs) or "pardir" in norm(a_):
+                        atoms.append(a_)
+                if not atoms:
+                    return False
+
+                def ev(t_, true_atom):
+                    if isinstance(t_, ast.UnaryOp) and isinstance(t_.op, ast.Not):
+                        v = ev(t_.operand, true_atom)
+                        return None if v is None else (not v)
+                    if isinstance(t_, ast.BoolOp):
+                        vs = [ev(v, true_atom) for v in t_.values]
+                        if isinstance(t_.op, ast.And):
+                            return False if any(v is False for v in vs) else (None if any(v is None for v in vs) else True)
+                        return True if any(v is True for v in vs) else (None if any(v is None for v in vs) else False)
+                    if any(t_ is a for a in atoms):
+                        holds = t_ is true_atom  # the condition "name has that '..' shape" holds for this atom only
+                        if isinstance(t_, ast.Compare) and len(t_.ops) == 1 and isinstance(t_.ops[0], (ast.NotEq, ast.NotIn)):
+                            return not holds
+                        return holds
+                    return None
+
+                return all(ev(test, a) is True for a in atoms)
+
+            if (any(".." in c for c in consts) or "os.pardir" in txt or "pardir" in txt) and _dd_positive(t):
                 componentwise = ".split(" in txt or ".parts" in txt
                 # a prefix test (== '..' / startswith('../')) only confines a name that was normalised before, on every path
                 if componentwise or any(dominating(a, n) for a in normalisers):
@@ -237,7 +271,7 @@ def r9_1(ctx):
         for n_ in g.nodes:
             if n_.kind == "test" and isinstance(n_.stmt, ast.If) and any(isinstance(x, ast.Raise) for st in n_.stmt.body for x in walk_no_nested(st)):
                 consts = [c.value for c in ast.walk(n_.ast) if isinstance(c, ast.Constant) and isinstance(c.value, str)]
-                if any(".." in c for c in consts):
+                if any(".." in c for c in consts) and sanitises(pm, next(iter(ret_vars), "")):
                     gtests.add(n_.id)
         for n_ in g.nodes:
             if n_.kind == "return" and n_.ast is not None and getattr(n_.ast, "value", None) is not None and not isinstance(n_.ast.value, ast.Constant):
@@ -390,10 +424,11 @@ def r9_3(ctx):
     okv = False
     for n in body_walk(pm.node):
         if isinstance(n, ast.If) and any(isinstance(x, ast.Raise) for s in n.body for x in walk_no_nested(s)):
-            for c in ast.walk(n.test):
-                if isinstance(c, ast.Compare) and len(c.ops) == 1 and isinstance(c.ops[0], (ast.Eq, ast.In)):
+            for c, pos in polarity_atoms(n.test):
+                if isinstance(c, ast.Compare) and len(c.ops) == 1 and isinstance(c.ops[0], (ast.Eq, ast.In, ast.NotEq, ast.NotIn)):
                     consts = [x.value for x in ast.walk(c) if isinstance(x, ast.Constant) and isinstance(x.value, str)]
-                    if "." in consts:
+                    affirm = isinstance(c.ops[0], (ast.Eq, ast.In))
+                    if "." in consts and affirm == pos:
                         okv = True
     gm = p.func("user_server.IMAPUserServer.get_mailbox")
     for n in body_walk(gm.node):
